@@ -2,20 +2,23 @@
 (* Validation of executions of real objstorage providers sharing one in-memory      *)
 (* remote.Storage behind a blocking gate (driver:                                    *)
 (* objstorage/objstorageprovider/zz_verif_proto_sharedobj_test.go).  The driver      *)
-(* releases one remote.Storage call at a time - in the order of a TLC-generated      *)
-(* schedule (forced) or in seeded random order (exploration) - and logs what the     *)
-(* real code did.                                                                    *)
-(* Strict = TRUE : every released call must be the spec step of that provider (same  *)
-(*   kind of store call, same result) and the store contents afterwards must equal   *)
-(*   the spec's obj / refs; API returns must match the spec's pc.                     *)
+(* releases one remote.Storage operation at a time - in the order of a TLC-generated *)
+(* schedule (forced; the schedule also says which operations FAIL and where an       *)
+(* upload's error surfaces) or in seeded random order with seeded random failures    *)
+(* (exploration) - and logs what the real code did.                                  *)
+(* Strict = TRUE : every released operation must be the spec step of that provider   *)
+(*   (same kind of store operation, same result, failing iff made to fail) and the   *)
+(*   store contents afterwards must equal the spec's obj / refs; API returns must    *)
+(*   match the spec's pc (a failed operation is reported by the API).                *)
 (* Strict = FALSE: only C41's own vocabulary: a provider whose Create/Attach returned *)
-(*   success and that has not called Remove can open and read the object (obs).       *)
+(*   success and that has not called Remove can open and read the object, and its    *)
+(*   own reference marker is in the store (obs).                                     *)
 EXTENDS SharedObj, Json, Sequences
 
 CONSTANTS Strict
 Trace == ndJsonDeserialize("trace.ndjson")
 VARIABLES l
-tvars == <<l, obj, refs, pc, attached, listed>>
+tvars == <<l, obj, refs, pc, attached, listed, faults>>
 
 Ev == Trace[l]
 Is(o) == l <= Len(Trace) /\ Trace[l].op = o /\ l' = l + 1
@@ -24,48 +27,57 @@ ToSet(s) == {s[i] : i \in 1..Len(s)}
 TraceInit == l = 1 /\ Init /\ TLCSet(1, 0)
 
 Start == /\ Is("start") /\ Ev.n = N
-         /\ obj' = TRUE /\ refs' = {0} /\ attached' = {0} /\ listed' = [p \in Prov |-> {}]
-         /\ pc' = [p \in Prov |-> IF p = 0 THEN "have" ELSE "idle"]
+         /\ obj' = FALSE /\ refs' = {} /\ attached' = {} /\ listed' = [p \in Prov |-> {}] /\ faults' = 0
+         /\ pc' = [p \in Prov |-> IF p = 0 THEN "c_obj" ELSE "idle"]
 
-(* API call begins.  backing: local step; attach / remove: the store calls follow as step events *)
+(* API call begins.  backing: local step; create / attach / remove: the store operations follow as step events *)
 Call == /\ Is("call")
         /\ (IF Strict
             THEN \/ (Ev.what = "backing" /\ GetBacking(Ev.p))
+                 \/ (Ev.what = "create" /\ pc[Ev.p] = "c_obj" /\ UNCHANGED vars)
                  \/ (Ev.what = "attach" /\ pc[Ev.p] = "backed" /\ UNCHANGED vars)
-                 \/ (Ev.what = "remove" /\ pc[Ev.p] = "have" /\ UNCHANGED vars)
+                 \/ (Ev.what = "remove" /\ pc[Ev.p] \in {"have", "rfailed"} /\ UNCHANGED vars)
             ELSE ( /\ attached' = (IF Ev.what = "remove" THEN attached \ {Ev.p} ELSE attached)
-                   /\ UNCHANGED <<obj, refs, pc, listed>>))
+                   /\ UNCHANGED <<obj, refs, pc, listed, faults>>))
 
-(* one released remote.Storage call of provider p, and the store contents right after it *)
-StepKind(p) == CASE pc[p] = "backed" -> "createref"
+(* one released remote.Storage operation of provider p, and the store contents right after it *)
+StepKind(p) == CASE pc[p] = "c_obj" -> "createobj"
+                 [] pc[p] \in {"c_ref", "backed", "latecreate"} -> "createref"
                  [] pc[p] = "check" -> "size"
-                 [] pc[p] = "latecreate" -> "createref"
-                 [] pc[p] \in {"have", "fu_del"} -> "delref"
+                 [] pc[p] \in {"have", "fu_del", "rfailed"} -> "delref"
                  [] pc[p] \in {"list", "fu_list"} -> "list"
                  [] pc[p] \in {"delobj", "fu_delobj"} -> "delobj"
                  [] OTHER -> "none"
 Step == /\ Is("step")
         /\ (IF Strict
-            THEN /\ Ev.kind = StepKind(Ev.p)
-                 /\ (ACreateRef(Ev.p) \/ ACheck(Ev.p) \/ ALate(Ev.p) \/ RDelRef(Ev.p) \/ RList(Ev.p) \/ RDelObj(Ev.p))
-                 /\ (Ev.kind = "size" => (Ev.arg = From(Ev.p) /\ Ev.found = (From(Ev.p) \in refs)))
-                 /\ (Ev.kind = "list" => ToSet(Ev.lst) = refs)
+            THEN /\ Ev.kind = StepKind(Ev.p) /\ Ev.closed
+                 /\ (IF Ev.fail
+                     THEN \/ (Ev.via = "create" /\ FailCreate(Ev.p))
+                          \/ (Ev.via = "write" /\ FailWrite(Ev.p))
+                          \/ (Ev.via = "close" /\ FailClose(Ev.p))
+                          \/ (Ev.via = "fail" /\ Fail(Ev.p))
+                     ELSE /\ (CCreateObj(Ev.p) \/ CCreateRef(Ev.p) \/ ACreateRef(Ev.p) \/ ACheck(Ev.p) \/ ALate(Ev.p)
+                                \/ RDelRef(Ev.p) \/ RList(Ev.p) \/ RDelObj(Ev.p))
+                          /\ (Ev.kind = "size" => (Ev.arg = From(Ev.p) /\ Ev.found = (From(Ev.p) \in refs)))
+                          /\ (Ev.kind = "list" => ToSet(Ev.lst) = refs))
                  /\ (Ev.kind \in {"createref", "delref"} => Ev.arg = Ev.p)
                  /\ obj' = Ev.obj /\ refs' = ToSet(Ev.refs)
             ELSE UNCHANGED vars)
 
 Ret == /\ Is("ret")
        /\ (IF Strict
-           THEN /\ (Ev.what = "attach" => (IF Ev.ok THEN pc[Ev.p] = "have" /\ Ev.p \in attached ELSE pc[Ev.p] = "failed"))
-                /\ (Ev.what = "remove" => (Ev.ok /\ pc[Ev.p] = "gone"))
+           THEN /\ (Ev.what \in {"create", "attach"} => (IF Ev.ok THEN pc[Ev.p] = "have" /\ Ev.p \in attached ELSE pc[Ev.p] = "failed"))
+                /\ (Ev.what = "remove" => (IF Ev.ok THEN pc[Ev.p] = "gone" ELSE pc[Ev.p] = "rfailed"))
                 /\ UNCHANGED vars
-           ELSE ( /\ attached' = (IF Ev.what = "attach" /\ Ev.ok THEN attached \cup {Ev.p} ELSE attached)
-                  /\ UNCHANGED <<obj, refs, pc, listed>>))
+           ELSE ( /\ attached' = (IF Ev.what \in {"create", "attach"} /\ Ev.ok THEN attached \cup {Ev.p} ELSE attached)
+                  /\ UNCHANGED <<obj, refs, pc, listed, faults>>))
 
 (* after every step: every provider the driver believes attached re-opens and reads the object *)
 Obs == /\ Is("obs")
        /\ ToSet(Ev.tested) = attached
-       /\ ToSet(Ev.tested) \subseteq ToSet(Ev.readable)          \* C41
+       /\ ToSet(Ev.tested) \subseteq ToSet(Ev.readable)          \* C41: still readable
+       /\ ToSet(Ev.tested) \subseteq ToSet(Ev.refs)              \* C41: success was reported only with the own marker in the store
+       /\ (Strict => (Ev.obj = obj /\ ToSet(Ev.refs) = refs))
        /\ (Strict => Safe)
        /\ UNCHANGED vars
 
